@@ -81,6 +81,9 @@ def gen_real(rng, i, tier):
     rb = rng.choice([4096, 30000, 200000])
     lines = ["case %d" % i, "cfg %d %d %d %d %d %d %d %s" % (ch, rate, nom, mx, av, mn, rb, rng.choice([0.0, 0.1, 0.5, 1.0])),
              "encode %d %d %d" % (rate * (2 if tier == "quick" else 8), rng.choice([0, 1, 1, 3, 4, 2]), rng.randint(1, 10 ** 6))]
+    if rng.random() < 0.3 and style != "cbr":
+        # the set-up call alone, limits only (no nominal rate), every tuning value at its default
+        lines[1] = "cfgd %d %d %d %d %d" % (ch, rate, mx * 1000 if mx else -1, rng.choice([-1, 0]), mn * 1000 if mn else -1)
     return lines, {"kind": "real", "style": style, "rb": rb}
 
 
@@ -127,8 +130,16 @@ def run(chk):
             ofail.append((r, "setup: a rate-management request with a tuning value out of range answered %s" % kv(c2[0]).get("refused")))
             continue
         # what the configuration asked for (the cfg op: ch rate nominal max_kbps avg_kbps min_kbps reservoir_bits bias)
-        cop = [o for o in r["ops"] if o.startswith("cfg ")][0].split(" ")
-        want_max, want_avg, want_min, want_rb = int(cop[4]) * 1000, int(cop[5]) * 1000, int(cop[6]) * 1000, int(cop[7])
+        cop = [o for o in r["ops"] if o.startswith(("cfg ", "cfgd "))][0].split(" ")
+        is_d = cop[0] == "cfgd"
+        if is_d:
+            want_max, want_avg, want_min = max(0, int(cop[3])), max(0, int(cop[4])), max(0, int(cop[5]))
+            want_rb = int(c["RB"])
+            if (want_max > 0 or want_min > 0) and want_rb <= 0:
+                ofail.append((r, "setup: hard limits max %d / min %d bit/s were accepted by vorbis_encode_setup_managed, but the reservoir they are enforced with is %d bits" % (want_max, want_min, want_rb)))
+                continue
+        else:
+            want_max, want_avg, want_min, want_rb = int(cop[4]) * 1000, int(cop[5]) * 1000, int(cop[6]) * 1000, int(cop[7])
         if want_rb > 0 and (want_max > 0 or want_min > 0):
             half, srate = int(c["bs0"]) // 2, int(c["rate"])
 
@@ -147,9 +158,8 @@ def run(chk):
             continue
         minb, maxb, spl, RB, des, R0 = (int(c[k]) for k in ("minb", "maxb", "spl", "RB", "desired", "R0"))
         # the model derives its budgets from the configuration itself (Cfg.ofRates = vorbis_bitrate_init), not from the manager's state
-        bias = float(cop[8])
-        mlines = [r["ops"][0], "cfgr %d %d %d %d %d %d %d %d" % (want_min, want_max, int(c["rate"]), int(c["bs0"]), int(c["bs1"]), want_rb,
-                                                                  int(want_rb * bias), int(want_rb * bias))]
+        des0 = int(c["desired"]) if is_d else int(want_rb * float(cop[8]))
+        mlines = [r["ops"][0], "cfgr %d %d %d %d %d %d %d %d" % (want_min, want_max, int(c["rate"]), int(c["bs0"]), int(c["bs1"]), want_rb, des0, des0)]
         exc, dfc, Rs = [], [], []
         from fractions import Fraction
         rate, bs0, bs1, maxrate, minrate = (int(c[k]) for k in ("rate", "bs0", "bs1", "maxrate", "minrate"))
